@@ -260,6 +260,13 @@ func (c *SimConn) SetWriteDeadline(t time.Time) error {
 	return nil
 }
 
+// NewLocalConn returns a connection that is not part of any network (simulated local clients of a double).
+func NewLocalConn(id int) *SimConn {
+	c := &SimConn{ID: id, RemoteAddress: "local", Tag: -1}
+	c.cond = sync.NewCond(&c.mu)
+	return c
+}
+
 // ---- server side (scheduler only)
 
 // Pending returns the bytes the client has written and the server has not consumed.
@@ -281,6 +288,10 @@ func (c *SimConn) Consume(n int) {
 // Deliver makes reply bytes readable by the client.
 func (c *SimConn) Deliver(b []byte) {
 	c.mu.Lock()
+	if c.Tag == -1 && c.RemoteAddress == "local" {
+		c.mu.Unlock()
+		return // replies to local clients are discarded
+	}
 	if c.broken == nil && !c.clientClosed {
 		c.s2c = append(c.s2c, b...)
 		c.BytesS2C += int64(len(b))
